@@ -45,7 +45,7 @@ func hdKeyObs(net *chaincfg.Params, k *hdkeychain.ExtendedKey) string {
 	if a, err := k.Address(net); err == nil {
 		addr = hs(a.EncodeAddress())
 	}
-	_, _, _, _, _, _, childNum, _ := hdkeychain.VerifFields(k)
+	_, _, _, _, _, _, childNum, _ := hk_hdkeychain_Fields(k)
 	return strings.Join([]string{hs(k.String()), pub, addr, itoa(int(k.Depth())), u64s(uint64(k.ParentFingerprint())), u64s(uint64(childNum)), b2s(k.IsPrivate())}, ",")
 }
 
@@ -102,7 +102,7 @@ func xkeyObs(k *hdkeychain.ExtendedKey, err error) string {
 	if err != nil {
 		return "err:" + hdErr(err)
 	}
-	_, _, _, _, _, _, childNum, _ := hdkeychain.VerifFields(k)
+	_, _, _, _, _, _, childNum, _ := hk_hdkeychain_Fields(k)
 	return strings.Join([]string{"ok", hs(k.String()), b2s(k.IsPrivate()), itoa(int(k.Depth())), u64s(uint64(k.ParentFingerprint())), u64s(uint64(childNum)), childStr(k, 0), childStr(k, hdkeychain.HardenedKeyStart)}, ",")
 }
 
@@ -203,7 +203,7 @@ func genC04(r *Rng, tier string, emit func(Case)) {
 			if err != nil {
 				continue
 			}
-			key, _, _, _, _, _, _, _ := hdkeychain.VerifFields(c)
+			key, _, _, _, _, _, _, _ := hk_hdkeychain_Fields(c)
 			if key[0] == 0 {
 				e("hd", "leadingzero", "0", hx(seed), u64s(uint64(idx))+",2147483648")
 				e("hd", "leadingzero", "0", hx(seed), u64s(uint64(idx))+",7,N,3")
@@ -222,7 +222,7 @@ func genC04(r *Rng, tier string, emit func(Case)) {
 				if err != nil {
 					continue
 				}
-				key, _, _, _, _, _, _, _ := hdkeychain.VerifFields(c)
+				key, _, _, _, _, _, _, _ := hk_hdkeychain_Fields(c)
 				if key[0] == 0 && key[1] == 0 {
 					e("hd", "leadingzero2", "0", hx(seed), u64s(uint64(idx))+",2147483648")
 					e("hd", "leadingzero2", "0", hx(seed), u64s(uint64(idx))+",3,N,1")
